@@ -70,7 +70,7 @@ PASSES = {
 }
 ANALYSIS_ONLY = {"Checker"}
 BOUNDARY = {"Checker": "check_model", "ShapeInference": "infer_shapes"}
-MODES = ["single", "single", "repeat", "sequential", "manager", "functional"]
+MODES = ["single", "single", "repeat", "sequential", "manager", "functional", "fmanager"]
 EXCS = {"ValidationError": lambda: onnx.checker.ValidationError("injected"), "RuntimeError": lambda: RuntimeError("injected"), "MemoryError": lambda: MemoryError("injected")}
 
 
@@ -92,7 +92,7 @@ def gen_case(run_seed: int, tier: str, index: int = 0) -> dict:
     for _ in range(r.choice([3, 4, 6, 8])):
         p = r.choice(names) if (r.random() < 0.7 or params["name_noise"]) else r.choice(["Checker", "ShapeInference"])
         step = {"pass": p, "opt": r.randrange(8), "mode": r.choice(MODES), "fault": None}
-        if step["mode"] in ("sequential", "manager"):
+        if step["mode"] in ("sequential", "manager", "fmanager"):
             step["others"] = [[r.choice(names), r.randrange(8)] for _ in range(r.choice([1, 2]))]
             step["steps"] = r.choice([1, 2, 3])
             step["early_stop"] = r.random() < 0.6
@@ -197,6 +197,25 @@ def is_sorted(model) -> bool:
     return all(graph_sorted(g, set()) for g in tops)
 
 
+def _all_graphs(model):
+    tops = [model.graph] + [f.graph for f in model.functions.values()]
+    out = []
+    for g in tops:
+        out.append(g)
+        for n in g.all_nodes():
+            out.extend(_subgraphs(n))
+    return out
+
+
+def _has_definition(v) -> bool:
+    return v.producer() is not None or v.is_graph_input() or v.is_initializer()
+
+
+def _defined_outputs(model) -> dict:
+    """Graph / function / subgraph outputs that are defined somewhere (node output, graph input or initializer)."""
+    return {id(v): v for g in _all_graphs(model) for v in g.outputs if v is not None and _has_definition(v)}
+
+
 def _size_bound(model) -> int:
     nodes = list(model.graph.all_nodes())
     for f in model.functions.values():
@@ -223,6 +242,9 @@ def _build(step):
         return ir.passes.PassManager([inner], steps=2, early_stop=True)
     if mode == "functional":
         return ir.passes.functionalize(p)
+    if mode == "fmanager":
+        # a manager composed of functional passes is itself functional
+        return ir.passes.PassManager([ir.passes.functionalize(x) for x in [p] + [PASSES[n](o) for n, o in step["others"]]], steps=step["steps"], early_stop=step["early_stop"])
     return p
 
 
@@ -257,6 +279,7 @@ def run_case(case: dict) -> dict:
             snap_before = snapshot.snapshot(w, tensors=False)
             proto_before = _proto_bytes(model)
             sorted_before = is_sorted(model)
+            defined_before = _defined_outputs(model)
             bound = _size_bound(model)
             boundary.armed = step.get("fault")
             fired0 = boundary.fired
@@ -291,6 +314,22 @@ def run_case(case: dict) -> dict:
                 if inv is not None and viol is None:
                     viol = ("links-inconsistent-after-pass", f"step {si} {name}/{mode} ({out}): {inv['clause']}: {inv['detail']}", f"links-inconsistent-after-pass|{name}|{inv['clause']}")
             snap_after = snapshot.snapshot(w, tensors=False)
+            # ---- use-def links: an output that had a definition is not left dangling
+            if viol is None:
+                for g in _all_graphs(model):
+                    for v in g.outputs:
+                        if v is not None and id(v) in defined_before and not _has_definition(v) and viol is None:
+                            viol = ("output-lost-its-definition", f"step {si} {name}/{mode} ({out}): output {v.name!r} of graph {g.name!r} was produced by a node (or was an input/initializer) before the pass and is defined nowhere afterwards", f"output-lost-its-definition|{name}")
+            # ---- the infrastructure's own contract check (declared in-place / functional) never fires for built-in passes
+            e_ = raised
+            while e_ is not None and viol is None:
+                if isinstance(e_, ir.passes.PassError) and e_.__cause__ is None and "is declared" in str(e_):
+                    viol = ("identity-rule", f"step {si} {name}/{mode}: {str(e_)[:200]}", f"identity-rule|contract-error|{mode}")
+                e_ = e_.__cause__
+            if mode == "fmanager" and viol is None:
+                if snap_after != snap_before:
+                    d = snapshot.diff(snap_before, snap_after)
+                    viol = ("functional-pass-altered-input", f"step {si} manager of functional passes ({name}, ...) changed its input: {str(d[:2])[:400]}", f"functional-pass-altered-input|fmanager|{name}")
             if raised is not None:
                 inc("pass_raised")
                 inc("pass_raised_" + name)
@@ -306,7 +345,13 @@ def run_case(case: dict) -> dict:
                         viol = ("identity-rule", f"step {si} {name}/{mode}: in-place pass returned a different model object", "identity-rule")
                     if not p.in_place and result.model is model:
                         viol = ("identity-rule", f"step {si} {name}/{mode}: functional pass returned its input model object", "identity-rule")
-                if mode == "functional":
+                if mode == "fmanager":
+                    if result.modified:
+                        nontrivial = True
+                    model = result.model if si % 2 else model
+                    if viol is None:
+                        continue
+                elif mode == "functional":
                     if snap_after != snap_before and viol is None:
                         d = snapshot.diff(snap_before, snap_after)
                         viol = ("functional-pass-altered-input", f"step {si} functionalize({name}) changed its input: {str(d[:2])[:400]}", f"functional-pass-altered-input|{name}")
